@@ -42,6 +42,7 @@ type propCfg struct {
 	Chunk    int
 	PerProc  bool           // one plan per process
 	Extra    map[string]int // extra build variants ("pie", "strip") -> plans in quick; thorough x20
+	EnvVar   map[string]int // environment variants ("env:debug", "env:nodir", "env:full") re-running the FIRST n plain seeds; transcripts are compared across processes
 	Rule     string
 	Assume   []string
 }
@@ -206,6 +207,9 @@ func childEnv(home string, variant string) []string {
 	if variant == "race" {
 		env = append(env, "GORACE=halt_on_error=0 exitcode=0 atexit_sleep_ms=0 history_size=2")
 	}
+	if variant == "env:debug" {
+		env = append(env, "GOOM_DEBUG=1")
+	}
 	return env
 }
 
@@ -270,7 +274,18 @@ func (r *runner) runChild(args []string, variant string) (res []*result, crashed
 	defer os.RemoveAll(home)
 	outf := filepath.Join(r.scratch, fmt.Sprintf("o%d.jsonl", id))
 	defer os.Remove(outf)
-	cmd := exec.Command(r.bins[variant], append(args, "-out", outf)...)
+	bin := r.bins[variant]
+	if strings.HasPrefix(variant, "env:") {
+		bin = r.bins["plain"]
+		switch variant {
+		case "env:nodir": // $HOME/logs exists but is a regular file: the log directory cannot be created
+			os.WriteFile(filepath.Join(home, "logs"), []byte("x"), 0644)
+		case "env:full": // every write to the log file fails with ENOSPC
+			os.MkdirAll(filepath.Join(home, "logs"), 0755)
+			os.Symlink("/dev/full", filepath.Join(home, "logs", "goom-mocker.log"))
+		}
+	}
+	cmd := exec.Command(bin, append(args, "-out", outf)...)
 	cmd.Env = childEnv(home, variant)
 	var eb bytes.Buffer
 	cmd.Stderr = &eb
@@ -861,6 +876,27 @@ func main() {
 			jobs = append(jobs, job{base + 700000000 + uint64(vi)*50000000 + uint64(s), c, v})
 		}
 	}
+	var envVariants []string
+	for v := range cfg.EnvVar {
+		envVariants = append(envVariants, v)
+	}
+	sort.Strings(envVariants)
+	for _, v := range envVariants {
+		n := cfg.EnvVar[v]
+		if tier == "thorough" {
+			n *= 20
+		}
+		if n > nPlain {
+			n = nPlain
+		}
+		for s := 0; s < n; s += chunk {
+			c := chunk
+			if s+c > n {
+				c = n - s
+			}
+			jobs = append(jobs, job{base + uint64(s), c, v}) // same seeds as the plain block
+		}
+	}
 	jc := make(chan job)
 	var wg sync.WaitGroup
 	workers := 16
@@ -943,6 +979,27 @@ func finish(r *runner, prop, tier string, seed uint64, cfg propCfg, known []know
 		fmt.Fprintf(os.Stderr, "vcheck: HARNESS TROUBLE (%d):\n%s\n", len(r.harness), r.harness[0])
 		writeEvidence(r, prop, tier, seed, cfg, t0, 0, nil, []string{"harness trouble: run is inconclusive"})
 		return 2
+	}
+	if len(cfg.EnvVar) > 0 {
+		plainTrans := map[uint64]*result{}
+		for _, x := range r.results {
+			if x.variant == "plain" && x.Verdict == "ok" {
+				plainTrans[x.Seed] = x
+			}
+		}
+		for _, x := range r.results {
+			if strings.HasPrefix(x.variant, "env:") && x.Verdict == "ok" {
+				if p, ok := plainTrans[x.Seed]; ok && p.Trans != x.Trans {
+					x.Verdict = "violation"
+					x.Sig = "log/transcript-differs-across-processes"
+					x.Msg = fmt.Sprintf("seed %d: transcript hash %s in the default environment, %s under %s", x.Seed, p.Trans, x.Trans, x.variant)
+					x.At = x.variant
+					if x.Plan == nil {
+						x.Plan = r.genPlan(x.Seed)
+					}
+				}
+			}
+		}
 	}
 	var viol []*result
 	okN, trunc := 0, 0
